@@ -1083,8 +1083,9 @@ def check_C03(ctx):
     frames_check(ctx, {"OUT_CONTENT", "OUT_ROWS", "BAR_RENDER", "FINAL", "CT_FLUSHBAR", "HM_STATE", "OUT_UNEXPECTED", "RET_GET"},
                  M.c03_monitor, 200, 6000, CONT_DEPS | {"ContainerLife.v", "ContainerFlush.v", "Props/C03.v"})
     ctx.cov["rule"] += ("; opt family: what a finished bar shows with the on-complete / on-abort filler options (messages, clear), "
-                        "filler middleware order, BarID, conditional bar and container option constructors, NopStyle, AddSpinner")
-    opt_check(ctx, {"final", "middleware", "conditional", "spinner"})
+                        "filler middleware order, BarID, conditional bar and container option constructors, NopStyle, AddSpinner; containers of "
+                        "30-80 bars whose parent context is cancelled: no bar running in the last frame")
+    opt_check(ctx, {"final", "middleware", "conditional", "spinner", "cancelmany"})
 
 
 @check
